@@ -129,8 +129,10 @@ Reach(dd, k, o, Stop) == IF Needed(dd, k, o) = {} THEN {} ELSE Trav(dd, k, {Func
 (* every other function reached from the requested output without passing an old node has exactly one node, and *)
 (* the contracted edges are exactly the dependencies whose consumer is such a node; an old node shows up only  *)
 (* as the source of an edge, at most once, and never coincides with another node (unique ids, acyclic).         *)
-TaskGraphOKFor(dd, k, o, g, Old) ==
-    LET Nd == Reach(dd, k, o, Old)   New == Reach(dd, k, o, Old) \ Old IN
+(* full (full_output=True): the traversal goes on behind an old node, to collect the other outputs.               *)
+Visited(dd, k, o, Old, full) == IF full THEN Needed(dd, k, o) ELSE Reach(dd, k, o, Old)
+TaskGraphOKFor(dd, k, o, g, Old, full) ==
+    LET Nd == Visited(dd, k, o, Old, full)   New == Visited(dd, k, o, Old, full) \ Old IN
     /\ GraphWellFormed(dd, g)
     /\ GraphAcyclic(g)
     (* at most one node per function of the evaluation (exactly one unless old), none for any other function *)
@@ -141,7 +143,7 @@ TaskGraphOKFor(dd, k, o, g, Old) ==
     /\ {<<IdxOfName(dd, NodeOf(g, e[1]).f), IdxOfName(dd, NodeOf(g, e[2]).f)>> : e \in Contracted(g)}
          = {e \in DepEdges(dd, k, o) : e[2] \in New}
     /\ PickerWiringOK(dd, k, g, New)
-TaskGraphOK(dd, k, o, g) == TaskGraphOKFor(dd, k, o, g, {})
+TaskGraphOK(dd, k, o, g) == TaskGraphOKFor(dd, k, o, g, {}, FALSE)
 
 (* a pipeline-level user cache (optional field cache_type of the description) and functions with cache=True *)
 UserCache(dd) == "cache_type" \in DOMAIN dd /\ dd.cache_type # ""
@@ -149,7 +151,7 @@ Cached(dd, i) == UserCache(dd) /\ dd.funcs[i].cache
 (* with M = the invocations made for earlier handles: which needed functions MAY be old is the cache's business  *)
 (* (don't-care), but only a cached function invoked before with identical resolved arguments can be            *)
 MayBeOld(dd, k, o, M) == {i \in Needed(dd, k, o) : Cached(dd, i) /\ <<i, ArgsOf(dd, k, i)>> \in M}
-TaskGraphOKReuse(dd, k, o, g, M) == \E Old \in SUBSET MayBeOld(dd, k, o, M) : TaskGraphOKFor(dd, k, o, g, Old)
+TaskGraphOKReuse(dd, k, o, g, M, full) == \E Old \in SUBSET MayBeOld(dd, k, o, M) : TaskGraphOKFor(dd, k, o, g, Old, full)
 
 (* The shape lazy.py records today, for documentation and for exercising TaskGraphOK in the model: one node  *)
 (* per needed function (id = its index), one picker per output name of every needed tuple-output function     *)
@@ -163,8 +165,8 @@ OutPos(dd, n, i) == IF n \in OutputsOf(dd, i)
                     ELSE Len(dd.funcs[i].outputs) + OutPos(dd, n, i + 1)
 PId(dd, n)       == NF(dd) + OutPos(dd, n, 1)
 (* Hit: needed functions answered from the user cache; the traversal from the requested output stops there.   *)
-ReferenceGraphFor(dd, k, o, Hit) ==
-    LET Tr    == Reach(dd, k, o, Hit)
+ReferenceGraphFor(dd, k, o, Hit, full) ==
+    LET Tr    == Visited(dd, k, o, Hit, full)
         New   == Tr \ Hit
         picks == {n \in AllOutputs(dd) : FuncOf(dd, n) \in Tr /\ Multi(dd, FuncOf(dd, n)) /\ ~PHas(k, n)}
         fnode(i) == [id |-> i, kind |-> "func", f |-> dd.funcs[i].name, pick |-> ""]
@@ -175,7 +177,7 @@ ReferenceGraphFor(dd, k, o, Hit) ==
     IN  [nodes |-> {fnode(i) : i \in New} \cup {fnode(i) : i \in {j \in Tr \cap Hit : \E e \in edges : e[1] = j}}
                    \cup {pnode(n) : n \in picks},
          edges |-> edges]
-ReferenceGraph(dd, k, o) == ReferenceGraphFor(dd, k, o, {})
+ReferenceGraph(dd, k, o) == ReferenceGraphFor(dd, k, o, {}, FALSE)
 
 ---------------------------------------------------------------------------
 (* Actions.  Eager calls of PipelineCall stay available when no handle is alive (the eager twin).             *)
@@ -217,8 +219,9 @@ SharedCall(i, args) == /\ phase = "running"
                        /\ args = ArgsOf(d, kw, i)
                        /\ done' = done \cup {i}
                        /\ UNCHANGED <<d, phase, out, kw, mode>>
-(* what has to run: everything reached from the requested output without looking behind a reused node *)
-MustRun  == Reach(d, kw, out, Reused) \ Reused
+(* what has to run: everything reached from the requested output without looking behind a reused node         *)
+(* (full_output: everything needed that is not reused, since every output is delivered)                        *)
+MustRun  == Visited(d, kw, out, Reused, mode = "full") \ Reused
 (* everything that has to run ran, nothing but needed functions ran (memo = {}: done = Needed) *)
 Complete == done \subseteq Needed(d, kw, out) /\ MustRun \subseteq done
 
@@ -254,7 +257,7 @@ ReEvaluateFull(pairs) == /\ lazy /\ phase = "built" /\ nev >= 1 /\ mode = "full"
 (* the graph recorded under construct_dag(), observed at any time after the (first) handle of the block exists; *)
 (* memo = {}: TaskGraphOK.  Nodes cached by an earlier handle (built before the block) may take part           *)
 Graph(g) == /\ lazy /\ dag /\ phase = "built" /\ nh = 0
-            /\ TaskGraphOKReuse(d, kw, out, g, memo)
+            /\ TaskGraphOKReuse(d, kw, out, g, memo, mode = "full")
             /\ graph' = g
             /\ UNCHANGED <<cvars, lazy, dag, nev, count, val, memo, nh>>
 (* the handle is dropped (and its construct_dag() block left) *)
@@ -282,7 +285,7 @@ ExactlyOnceNeeded     == (lazy /\ nev >= 1) => \A i \in FIdx(d) :
                              /\ (i \in MustRun => count[i] = 1)
 CountIsDone           == lazy => \A i \in FIdx(d) : count[i] = IF i \in done THEN 1 ELSE 0
 ValueIsEval           == (lazy /\ nev >= 1) => val = Eval(d, kw, out)
-GraphIsOK             == (lazy /\ graph # NoGraph) => (dag /\ nh = 0 /\ TaskGraphOKReuse(d, kw, out, graph, memo))
+GraphIsOK             == (lazy /\ graph # NoGraph) => (dag /\ nh = 0 /\ TaskGraphOKReuse(d, kw, out, graph, memo, mode = "full"))
 LazyTypeOK            == /\ phase \in {"idle", "building", "built", "running"}
                          /\ lazy \in BOOLEAN /\ dag \in BOOLEAN /\ nev \in Nat /\ nh \in Nat
                          /\ (~lazy => (phase \in {"idle", "running"} /\ ~dag /\ nev = 0 /\ val = NoVal /\ graph = NoGraph))
